@@ -1092,7 +1092,76 @@ func (f *frame) loopVarValue(li *loopInfo, name string, phiVals map[*ssa.Phi]*Va
 		}
 		return f.val(best)
 	}
+	// The local may have been renamed in the code: when exactly one declared variable and exactly one
+	// header phi of the same type are left unmatched by name, they are bound to each other. (A wrong
+	// binding cannot make a proof pass that should fail - invariants are proved, never assumed first.)
+	if phi := f.renamedPhi(li, name); phi != nil {
+		f.e.warn("%s: loop %d: declared variable %q bound to the local %q (same type, the only unmatched pair)", f.fn.Name(), li.Ord, name, phi.Comment)
+		if v, ok := phiVals[phi]; ok {
+			return v, nil
+		}
+		return f.val(phi)
+	}
 	return nil, fmt.Errorf("loop %d of %s: no variable %q at the loop header (known: phis %s)", li.Ord, f.fn.Name(), name, phiNames(li.Header))
+}
+
+// renamedPhi finds the unique header phi that can stand for the declared loop variable name when no
+// phi of that name exists (see loopVarValue).
+func (f *frame) renamedPhi(li *loopInfo, name string) *ssa.Phi {
+	lc := f.loopContract(li)
+	if lc == nil {
+		return nil
+	}
+	declared := map[string]string{}
+	for _, vd := range lc.Vars {
+		declared[strings.TrimSuffix(vd.Name, "_cur")] = vd.Type
+	}
+	want, ok := declared[name]
+	if !ok {
+		return nil
+	}
+	qual := func(p *types.Package) string {
+		if p == f.fn.Pkg.Pkg {
+			return ""
+		}
+		return p.Name()
+	}
+	var phis []*ssa.Phi
+	byName := map[string]bool{}
+	for _, ins := range li.Header.Instrs {
+		if phi, ok := ins.(*ssa.Phi); ok {
+			phis = append(phis, phi)
+			byName[phi.Comment] = true
+		}
+	}
+	// other declared variables of the same type that are also unmatched make the pairing ambiguous
+	for n, t := range declared {
+		if n != name && t == want && !byName[n] && !regexp.MustCompile(`_L\d+$`).MatchString(n) {
+			isParam := false
+			for _, p := range f.fn.Params {
+				if p.Name() == n {
+					isParam = true
+				}
+			}
+			if !isParam {
+				return nil
+			}
+		}
+	}
+	var cand *ssa.Phi
+	for _, phi := range phis {
+		if _, isDeclared := declared[phi.Comment]; isDeclared {
+			continue
+		}
+		if types.TypeString(phi.Type(), qual) != want {
+			continue
+		}
+		if cand != nil {
+			return nil
+		}
+		cand = phi
+	}
+	return cand
 }
 
 func phiNames(b *ssa.BasicBlock) string {
